@@ -917,6 +917,30 @@ def extract_stmts(repo, fnspec):
                     break
                 j += 1
         st = body[i:j + 1]
+        if akv.get('sole_in'):
+            # the statement must be the ONLY statement of the block whose header contains the given text (so that no
+            # logic of that block escapes the extraction when code is moved in or out of the statement)
+            depth = 0
+            k = i - 1
+            while k >= 0:
+                c = mb[k]
+                if c in ')]}':
+                    depth += 1
+                elif c in '([{':
+                    if depth == 0:
+                        break
+                    depth -= 1
+                k -= 1
+            if k < 0 or mb[k] != '{':
+                raise ExtractError(f"statement anchor {a!r}: enclosing block not found")
+            close = match_close(mb, k)
+            header = body[body.rfind('\n', 0, k) + 1:k]
+            if akv['sole_in'] not in header:
+                raise ExtractError(f"statement anchor {a!r}: enclosing block is `{header.strip()}`, expected `{akv['sole_in']}`")
+            if mb[k + 1:i].strip() or mb[j + 1:close].strip():
+                raise ExtractError(f"statement anchor {a!r}: it is no longer the only statement of `{akv['sole_in']}` "
+                                   f"(other code in that block would escape the contract)")
+            log.append(f"checked: the statement is the sole statement of the block `{header.strip()}`")
         stmts.append(st)
         lines.append(loc['line'] + src[loc['sig_start']:loc['body_open']].count('\n') + body.count('\n', 0, i))
         log.append(f"kept statement at {fnspec['file']}:{lines[-1]}: `{' '.join(st.split())[:100]}`")
